@@ -37,3 +37,9 @@ claim("C13",
       "Static necessary conditions of 'every request returns, stopping terminates, no panic': every blocking operation reached while a keeper lock is held (computed locksets, may-block call summaries) is unblocked only by goroutines that never acquire a conflicting lock; every close of a field-held channel is once-guarded and every send on a closable channel is under the closer's mutex behind the flag test; lock order acyclic; the plotter queue heap is accessed under its mutex by all concurrent code (v1 and v2 keepers). Holds for all interleavings and any number of queued requests because locksets and channel identities are schedule-independent. Four sites (send on the bounded request channel under stateLock) are a recorded known finding.",
       "Trusted: go/ssa, mass-core BaseService CAS serialisation (re-verified on its SSA), channel identity by field. NOT decided: general deadlock freedom/liveness, panics from nil items, lost stop request when StopWS races the start of a plot.",
       "DESIGN.md §4 C13")
+
+claim("C09",
+      "transition extraction from SSA vs documented table + write-lock lockset + dominance + who-may-call",
+      "Static: the set of state transitions that exist in both keepers (every writer of WorkSpace.state and of the per-state indexes, reconstructed as delete-old/set-new/store triples with their dominating membership guard) equals the documented table; every state effect of concurrently runnable code holds stateLock for writing; stop/remove/delete clear the plotter queue before any effect; exactly one plotter goroutine and only it calls Plot; the miner asks for SFMining and GetProofs offers only spaces passing the flag filter on the same state field that Info reports. Right level: the property quantifies over all histories and plotter interleavings; the extractor enumerates every transition that can ever execute.",
+      "Trusted: go/ssa, the documented table as frozen from engine.go, single-threadedness before Start. NOT decided: liveness, that the popped queue item is the plotting space, linearisation of unlocked state reads in proof queries.",
+      "DESIGN.md §4 C09")
